@@ -24,8 +24,8 @@ def population(ctx, kind):
     if kind == "lalr":     # C03, C04, C05
         if ctx.quick():
             return ["-corpus", CORPUS, "-small-max", 3, "-small-slices", 16, "-small-slice", s % 16,
-                    "-nrand", 300, "-ndp", 150, "-nctx", 150, "-nexpr", 60]
-        return ["-corpus", CORPUS, "-small-max", 3, "-nrand", 5000, "-ndp", 2000, "-nctx", 2000, "-nexpr", 600]
+                    "-nrand", 300, "-ndp", 150, "-nctx", 150, "-nexpr", 60, "-nring", 40]
+        return ["-corpus", CORPUS, "-small-max", 3, "-nrand", 5000, "-ndp", 2000, "-nctx", 2000, "-nexpr", 600, "-nring", 400]
     raise ValueError(kind)
 
 
@@ -63,7 +63,7 @@ def report(ctx, results, cfg, module):
             json.dump([o], open(os.path.join(d, "obs.json"), "w"))
             json.dump({"property": ctx.prop, "module": module, "cfg": cfg, "invariants": sorted(set(names)),
                        "kind": "conf"}, open(os.path.join(d, "meta.json"), "w"), indent=1)
-            rules = "; ".join("%s -> %s" % (ru["lhs"], " ".join(ru["rhs"])) for ru in o["g"]["rules"][1:])
+            rules = "; ".join("%s -> %s" % (ru["lhs"], " ".join(ru["rhs"] or [])) for ru in o["g"]["rules"][1:])
             ctx.violation(key, d, "grammar %s violates %s\n%s\nprec=%s outcome=%s diag=%s" % (
                 o["id"], ",".join(sorted(set(names))), rules, json.dumps(o["g"]["tokprec"]),
                 o["outcome"], o["diag"][:200]))
@@ -73,7 +73,7 @@ def samples_from(shards, n=4):
     res = []
     for sf in shards[:2]:
         for o in json.load(open(sf))[:n]:
-            res.append({"id": o["id"], "rules": ["%s -> %s" % (r["lhs"], " ".join(r["rhs"])) for r in o["g"]["rules"]],
+            res.append({"id": o["id"], "rules": ["%s -> %s" % (r["lhs"], " ".join(r["rhs"] or [])) for r in o["g"]["rules"]],
                         "outcome": o["outcome"], "states": len(o["states"])})
             if len(res) >= n:
                 return res
